@@ -32,7 +32,8 @@ def main():
             rc, out = sh(["git", "-C", REPO, "apply", "-3", os.path.join(d, "patch.diff")])
         if rc != 0:
             res["applies"] = False
-            sh(["git", "-C", REPO, "checkout", "--", "."])
+            sh(["git", "-C", REPO, "reset", "-q", "--hard", "HEAD"])
+            sh(["git", "-C", REPO, "clean", "-fdq"])
         else:
             res["applies"] = True
             try:
